@@ -1,4 +1,5 @@
 import Driver.OpsCore
+import Driver.OpsEval
 import Driver.OpsRoads
 import Driver.OpsAlloc
 import Driver.OpsFn
@@ -13,6 +14,7 @@ def handlers : List Handler := [
   handleFn,
   handleC03,
   handleSym,
+  handleEval,
 ]
 
 def step (st : St) (line : String) : St × String :=
